@@ -481,6 +481,7 @@ func extractCloseShapes() {
 		{"transport/ipc", "dialer", "Close"}, {"transport/ipc", "listener", "Close"},
 		{"transport/ws", "listener", "Close"}, {"transport/ws", "listener", "Accept"}, {"transport/ws", "listener", "ServeHTTP"},
 		{"transport/ws", "dialer", "Close"}, {"transport/ws", "dialer", "netDial"},
+		{"transport/inproc", "dialer", "Close"}, {"transport/inproc", "listener", "Close"},
 	} {
 		p := loadPkg(fn.pkg)
 		fd := p.fn(fn.recv, fn.name)
